@@ -39,6 +39,10 @@ RAND = dict(ST.BASE, NV=5, NU=1, NL=7, NLaw=1, InitBV=5, InitBU=1, Kinds={"D", "
             AllowNone=False, DoEmit=False)
 
 
+def W_C(op, k="", a=()):
+    return {"op": op, "k": k, "a": list(a), "b": []}
+
+
 def _gens():
     from edgegraph.traversal import breadthfirst, depthfirst
     return {"ibft": breadthfirst.ibft, "idftr": depthfirst.idft_recursive, "idfti": depthfirst.idft_iterative}
@@ -269,10 +273,17 @@ def check(run, wd, seed, tier, prop="C06"):
     num, depth = (40, 24) if tier == "quick" else (400, 30)
     hists, res = simulate(wd, num, depth, seed + 11)
     run.add_model("lazy-simulate-4x5", res, {"num": num, "depth": depth})
+    # three fixed schedules in which a link is added right after the first yield (so that laziness is certainly observed,
+    # whatever the seed): 1 -> 2 -> 3, first next(), then 1 -> 4
+    nof = {"t": "none", "L": [], "V": []}
+    for kind in ("ibft", "idftr", "idfti"):
+        hists.append([{"c": W_C("new", "D", [1, 2])}, {"c": W_C("new", "D", [2, 3])},
+                      {"c": {"op": "gcreate", "k": kind, "a": [0, 1, 0, 2], "b": [], "fv": nof}}, {"c": W_C("gnext")},
+                      {"c": W_C("new", "D", [1, 4])}] + [{"c": W_C("gnext")}] * 5)
     cap = 1500 if tier == "quick" else 20000
     step = max(1, len(hists) // cap)
     sched = []
-    for hi, h in enumerate(hists[::step]):
+    for hi, h in enumerate(hists[:-3][::step] + hists[-3:]):
         t = run_schedule(SIM, h, caching=bool(hi % 2))
         if t is not None and any(e["op"] == "next" for e in t["ev"]):
             t["id"] = len(sched) + 1
